@@ -189,7 +189,7 @@ def solve_scipy(
     # Forget that SciPy has shown it already (only that one entry: installing a
     # filter or entering catch_warnings would reset the once-per-location state of
     # every warning in the process and replace warnings.filters).
-    _forget_delta_grad_warning()
+    forgotten = _forget_delta_grad_warning()
 
     try:
         # Temporarily override warning handling during solve
@@ -216,6 +216,9 @@ def solve_scipy(
         )
     finally:
         warnings.showwarning = old_showwarning
+        # what SciPy had already shown the application stays shown
+        for registry, key, value in forgotten:
+            registry.setdefault(key, value)
 
     solve_time = time.perf_counter() - start_time
 
@@ -329,10 +332,14 @@ def solve_scipy(
     )
 
 
-def _forget_delta_grad_warning() -> None:
-    """Drop the 'delta_grad == 0.0' entries from SciPy's once-per-location registries."""
+def _forget_delta_grad_warning() -> list[tuple[dict, Any, Any]]:
+    """Drop the 'delta_grad == 0.0' entries from SciPy's once-per-location registries.
+
+    Returns the removed (registry, key, value) triples so that the caller can put
+    them back once the solve is over."""
     import sys
 
+    removed: list[tuple[dict, Any, Any]] = []
     for name, module in list(sys.modules.items()):
         if not name.startswith("scipy.optimize"):
             continue
@@ -344,7 +351,8 @@ def _forget_delta_grad_warning() -> None:
             for k in list(registry)
             if isinstance(k, tuple) and str(k[0]).startswith("delta_grad == 0.0")
         ]:
-            registry.pop(key, None)
+            removed.append((registry, key, registry.pop(key)))
+    return removed
 
 
 def _compute_initial_point(
